@@ -102,10 +102,13 @@ struct Report {
     ++nViolations;
     auto& k = violationKinds[property + "|" + what];
     ++k;
-    if (violations.size() < keepViolations && k <= 25) {
+    // at most 25 witnesses per kind and keepViolations in all, but the first witness of every kind is always kept
+    if ((violations.size() < keepViolations && k <= 25) || k == 1) {
       violations.push_back({ {"property", property}, {"what", what}, {"witness", witness}, {"detail", detail} });
+      ++storedPerKind[property + "|" + what];
     }
   }
+  std::map<std::string, long> storedPerKind;
   void Drift(const std::string& property, const std::string& what, const json& witness, const json& detail = json()) {
     ++nDrift;
     auto& k = driftKinds[property + "|" + what];
@@ -124,7 +127,10 @@ struct Report {
   void Merge(const json& j) {
     cases += j.value("cases", 0L); checks += j.value("checks", 0L);
     nViolations += j.value("violations_total", 0L); nDrift += j.value("drift_total", 0L);
-    for (auto& v : j["violations"]) if (violations.size() < keepViolations) violations.push_back(v);
+    for (auto& v : j["violations"]) {     // same rule across the reports of the batches: no kind may crowd out another
+      auto& stored = storedPerKind[v["property"].get<std::string>() + "|" + v["what"].get<std::string>()];
+      if ((violations.size() < keepViolations && stored < 25) || stored == 0) { violations.push_back(v); ++stored; }
+    }
     for (auto& [k, v] : j["violation_kinds"].items()) violationKinds[k] += v.get<long>();
     for (auto& v : j["drift"]) if (drift.size() < 50) drift.push_back(v);
     for (auto& [k, v] : j["drift_kinds"].items()) driftKinds[k] += v.get<long>();
